@@ -51,6 +51,21 @@ static void add_collinear_midpoints(Rng& g, Path64& p) {
   }
   p = r;
 }
+// a vertex near the middle of a long edge, pushed a few units off it: the turning angle there is tiny (its sine is almost
+// zero) but the vertex is still many units away from the chord of its neighbours' offset points when |delta| is small
+static void add_near_collinear_midpoints(Rng& g, Path64& p) {
+  Path64 r;
+  for (size_t i = 0; i < p.size(); ++i) {
+    r.push_back(p[i]);
+    const Point64& a = p[i]; const Point64& b = p[(i + 1) % p.size()];
+    double dx = (double)(b.x - a.x), dy = (double)(b.y - a.y), len = std::sqrt(dx * dx + dy * dy);
+    if (len > 20000 && g.chance(40)) {
+      double off = (double)g.range(2, 40) * (g.coin() ? 1 : -1);
+      r.emplace_back((a.x + b.x) / 2 + (int64_t)std::llround(-dy / len * off), (a.y + b.y) / 2 + (int64_t)std::llround(dx / len * off));
+    }
+  }
+  p = r;
+}
 static bool ccw(const Path64& p) { return Area(p) > 0; }
 
 struct PolyInput { Paths64 paths; std::vector<int> group; int64_t S; std::string kind; int holes = 0, outers = 0, islands = 0; };
@@ -64,6 +79,7 @@ static bool gen_polygon(Rng& g, int64_t S, int64_t cx, int64_t cy, Paths64& out,
     else if (k < 8) { outer = gen_rectilinear(g, S, cx, cy); info.kind = "rectilinear"; }
     else { outer = gen_star(g, S, cx, cy, 3, 5); info.kind = "few-vertices"; }
     if (g.chance(15)) add_collinear_midpoints(g, outer);
+    if (g.chance(12)) { add_near_collinear_midpoints(g, outer); stat("gen.near_collinear_midpoints"); }
     if (outer.size() < 3 || !closed_turns_ok(outer) || !closed_set_simple(Paths64{outer}) || !ccw(outer)) continue;
     Paths64 res{outer};
     std::vector<bool> is_hole{false};
@@ -162,6 +178,18 @@ static Paths64 run_real(const PolyInput& in, const Paths64& paths, const Params&
       co.AddPaths(paths, jt, EndType::Polygon);
       Paths64 junk; co.Execute(d, junk);
       co.MiterLimit(ml); co.ArcTolerance(arc); co.ReverseSolution(pr.rev);
+      co.Execute(d, sol); return sol;
+    }
+    case 8: {  // the result vector is re-used: it still holds a larger offset of the same paths when the call is made
+      ClipperOffset co(ml, arc, false, pr.rev);
+      co.AddPaths(paths, jt, EndType::Polygon);
+      co.Execute(d + (d < 0 ? -7 : 7), sol);
+      co.Execute(d, sol); return sol;
+    }
+    case 9: {  // polytree overload first (tree kept alive), then the paths overload on the same object
+      ClipperOffset co(ml, arc, false, pr.rev);
+      co.AddPaths(paths, jt, EndType::Polygon);
+      PolyTree64 tree; co.Execute(d, tree);
       co.Execute(d, sol); return sol;
     }
     default: {  // one group per polygon-with-holes
@@ -286,7 +314,7 @@ int main(int argc, char** argv) {
     pr.ml = pick_ml(g);
     pr.rev = g.chance(30);
     pr.negative_convention = g.chance(40);
-    pr.api = (int)(g.next() % 8);
+    pr.api = (int)(g.next() % 10);
     pr.pointless_group = g.chance(15) ? (int)g.range(1, 2) : 0;
     int c = (int)(g.next() % 20);
     std::string cls;
